@@ -545,7 +545,7 @@ fn gen_case(rng: &mut Rng, w0: &World, session: &str, n_calls: usize) -> Option<
 fn main() {
     let args = Args::parse();
     let mut out = Out::new(&args);
-    out.rule = "generated unannotated functions of 1-3 parameters (body: type-directed mix of + - * / ^(rational) neg -> comparisons if-then-else, literal 0, calls of sqrt sqr cbrt abs hypot2 round_in mod unit_of value_of circle_area …; parameters share or derive dimensions so that inference has to unify; every fifth parameter is a list of quantities used through head sum maximum mean), each defined in a clone of the session, re-declared with its printed signature, and probed with 24 call sites (2/3 fitting the analysed type, 1/3 with a perturbed argument, some literal zeros); every 8th case runs in a session that defines dimensions A, B, C. distinct = distinct function text; non-trivial = the inferred signature is generic".into();
+    out.rule = "generated unannotated functions of 1-3 parameters (body: type-directed mix of + - * / ^(rational) neg -> comparisons if-then-else, literal 0, calls of sqrt sqr cbrt abs hypot2 round_in mod unit_of value_of circle_area …; parameters share or derive dimensions so that inference has to unify; every fifth parameter is a list of quantities used through head sum maximum mean; every tenth body has the polymorphic 0 as a factor of its result; every tenth function only compares two parameters with == / != so that their type variable carries no Dim bound), each defined in a clone of the session, re-declared with its printed signature, and probed with 24 call sites (2/3 fitting the analysed type, 1/3 with a perturbed argument, some literal zeros); every 8th case runs in a session that defines dimensions A, B, C. distinct = distinct function text; non-trivial = the inferred signature is generic".into();
     let w0 = tables::prelude_world();
     let mut sessions: Vec<(String, Context)> = Vec::new();
     for k in ["P", "A"] {
